@@ -44,7 +44,7 @@ func c19Names(c *fw.Ctx) {
 	if !c.Quick() {
 		maxLen, e2eLen = 7, 4
 	}
-	names := map[string]string{} // tag name -> title (each worker holds the whole map: the pass is cheap)
+	names := map[string]string{} // tag name -> title, for the names of this worker's hash class
 	var rec func(prefix string, n int)
 	rec = func(prefix string, n int) {
 		if prefix != "" && prefix != "." {
@@ -58,12 +58,15 @@ func c19Names(c *fw.Ctx) {
 				}
 			}
 			name := catalog.VerifTagName(title)
-			if prev, ok := names[name]; ok && prev != title {
-				if mine {
+			// every worker computes every name, but keeps (and judges) only the names of its own hash
+			// class: two segments with one name meet in the same class, and the memory of the whole
+			// set (2 * 10^7 names in the thorough tier) is divided among the workers
+			if owner := int(fnvString(name) % uint64(c.Shards)); owner == c.Shard || c.Shards <= 1 {
+				if prev, ok := names[name]; ok && prev != title {
 					c.Violate("tag-name-collision", "C19:collision", fmt.Sprintf("first segments %q and %q get the same automatic tag name %q", prev, title, name), map[string]interface{}{"a": prev, "b": title})
 				}
+				names[name] = title
 			}
-			names[name] = title
 			if mine {
 				c.Count("evaluations", 1)
 				c.Count("name_function_calls", 1)
@@ -461,4 +464,13 @@ func dedupStrings(in []string) []string {
 		}
 	}
 	return out
+}
+
+func fnvString(s string) uint64 {
+	h := uint64(14695981039346656037)
+	for i := 0; i < len(s); i++ {
+		h ^= uint64(s[i])
+		h *= 1099511628211
+	}
+	return h
 }
